@@ -126,6 +126,23 @@ class Recorder:
         }
 
 
+def crash_violation(rec, e, fn, args):
+    """An exception that escaped a shard: if it was raised *inside the code under test* (a frame of the bound
+    repository is on the traceback) the code under test failed on an input on which the unchanged tree does
+    not fail - a violation with the shard as its replay (returns True); otherwise it is a harness bug."""
+    from . import repo as _repo
+    tb = traceback.extract_tb(e.__traceback__)
+    lib = [f for f in tb if f.filename.startswith(_repo.REPO + os.sep)]
+    if not (lib and isinstance(e, Exception)):
+        return False
+    where = lib[-1]
+    rec.violation(f"crash:{fn}:{type(e).__name__}",
+                  f"shard {fn} {args}: unguarded call into the library raised {type(e).__name__}: {e} "
+                  f"(at {os.path.relpath(where.filename, _repo.REPO)}:{where.lineno} in {where.name}); the harness expected this call to succeed",
+                  fn, args)
+    return True
+
+
 def _run_shard(job):
     modname, idx, shard, tier, seed, shard_timeout = job
     mod = importlib.import_module(modname)
@@ -144,8 +161,9 @@ def _run_shard(job):
                       shard['fn'], shard['args'])
     except CaseTimeout:
         rec.violation(f"timeout:{shard['fn']}", f'shard {shard}: unguarded case timeout', shard['fn'], shard['args'])
-    except BaseException:
-        err = traceback.format_exc()
+    except BaseException as e:
+        if not crash_violation(rec, e, shard['fn'], shard['args']):
+            err = traceback.format_exc()
     finally:
         signal.setitimer(signal.ITIMER_REAL, 0)
     out = rec.export()
@@ -213,6 +231,9 @@ def replay_one(modname, tier, seed, replay):
             getattr(mod, replay['fn'])(rec, **replay['args'])
     except CaseTimeout:
         rec.violation(f"timeout:{replay['fn']}", 'did not finish', replay['fn'], replay['args'])
+    except Exception as e:
+        if not crash_violation(rec, e, replay['fn'], replay['args']):
+            raise
     return rec.violations
 
 
